@@ -150,8 +150,7 @@ func H_C15_NodeDescendants() {
 // H_C15_DescendantsFanout: a structured family one node larger than the general harness can afford in the quick
 // tier: exactly NF nodes, edge i leaves node i (so fan-outs chain), 1..2 symbolic targets each (they may coincide,
 // dangle, loop back), the start node is node 0, an optional symbolic root element.
-func H_C15_DescendantsFanout() {
-	n := rt.Bound("NF", 4, 5)
+func c15fanout(n, maxEdges int) (*sbom.NodeList, []string) {
 	a := &sbom.NodeList{}
 	for i := 0; i < n; i++ {
 		a.Nodes = append(a.Nodes, &sbom.Node{Id: rt.NondetString("gid")})
@@ -161,7 +160,7 @@ func H_C15_DescendantsFanout() {
 	for _, id := range is {
 		rt.Assume(id != "")
 	}
-	ne := 1 + rt.NondetLen("gne", rt.Bound("EF", 1, 2))
+	ne := 1 + rt.NondetLen("gne", maxEdges)
 	for i := 0; i < ne; i++ {
 		ed := &sbom.Edge{From: is[i], Type: edgeType(rt.NondetChoice("gty", 2))}
 		nt := 1 + rt.NondetLen("gnt", 1)
@@ -173,11 +172,35 @@ func H_C15_DescendantsFanout() {
 	if rt.NondetChoice("hasroot", 2) == 1 {
 		a.RootElements = append(a.RootElements, rt.NondetString("groot"))
 	}
+	return a, is
+}
+
+func H_C15_DescendantsFanout() {
+	a, is := c15fanout(rt.Bound("NF", 4, 5), rt.Bound("EF", 1, 2))
 	c15descendants(a, is, is[0])
 }
 
-func c15descendants(a *sbom.NodeList, is []string, start string) {
+// H_C15_Twice: the extraction is also exact when the same list has been used for an earlier extraction (any of the
+// three functions, another depth): nothing an extraction does to shared edges may show in a later one.
+func H_C15_Twice() {
+	a, is := c15fanout(3, rt.Bound("ET", 1, 2))
 	orig := cloneList(a)
+	switch rt.NondetChoice("earlier", 3) {
+	case 0:
+		a.NodeDescendants(is[0], 1)
+	case 1:
+		a.NodeGraph(is[0])
+	case 2:
+		a.NodeSiblings(is[0])
+	}
+	c15descendantsRef(a, orig, is, is[0])
+}
+
+func c15descendants(a *sbom.NodeList, is []string, start string) {
+	c15descendantsRef(a, cloneList(a), is, start)
+}
+
+func c15descendantsRef(a, orig *sbom.NodeList, is []string, start string) {
 	d := 1 + rt.NondetLen("depth", rt.Bound("D", 2, 4))
 	res := a.NodeDescendants(start, d)
 	if len(res.Nodes) == 0 {
